@@ -427,18 +427,31 @@ func (p *c22Peer) behave(slot int, state string) {
 	}
 }
 
-func (p *c22Peer) prev() (ICEConnectionState, DTLSTransportState) {
+// explain looks for the older input value that accounts for a resting state which is not the aggregate of the current
+// inputs: the most recent earlier DTLS value d with f(closed, ice, d) = cs, and the most recent earlier ICE value i with
+// f(closed, i, dtls) = cs. When both exist, the input whose current value was delivered last is the one the state
+// does not reflect (an update cannot have missed the older change and seen the newer one of the other transport
+// unless it read them at different times — then the newer one is still what it lacks).
+func (p *c22Peer) explain(snap c22Snap) (byDTLS bool, oldDTLS DTLSTransportState, byICE bool, oldICE ICEConnectionState) {
 	p.mu.Lock()
 	defer p.mu.Unlock()
-	pi, pd := ICEConnectionStateNew, DTLSTransportStateNew
-	if n := len(p.ice); n >= 2 {
-		pi = p.ice[n-2]
+	ices := append([]ICEConnectionState{ICEConnectionStateNew}, p.ice...)
+	dtlss := append([]DTLSTransportState{DTLSTransportStateNew}, p.dtls...)
+	for k := len(dtlss) - 2; k >= 0 && !byDTLS; k-- {
+		if dtlss[k] != snap.dtls && c22Spec(snap.closed, snap.ice, dtlss[k]) == snap.cs {
+			byDTLS, oldDTLS = true, dtlss[k]
+		}
 	}
-	if n := len(p.dtls); n >= 2 {
-		pd = p.dtls[n-2]
+	for k := len(ices) - 2; k >= 0 && !byICE; k-- {
+		if c22NormICE(ices[k]) != c22NormICE(snap.ice) && c22Spec(snap.closed, ices[k], snap.dtls) == snap.cs {
+			byICE, oldICE = true, ices[k]
+		}
+	}
+	if byDTLS && byICE {
+		byDTLS, byICE = p.dtlsT > p.iceT, p.dtlsT <= p.iceT
 	}
 
-	return pi, pd
+	return byDTLS, oldDTLS, byICE, oldICE
 }
 
 func (p *c22Peer) history() map[string]any {
@@ -631,16 +644,9 @@ func c22CheckPeer(run *kit.Run, sched *kit.Sched, p *c22Peer, sc *c22Scenario, p
 		}
 		p.bad = true
 		want := c22Spec(snap.closed, snap.ice, snap.dtls)
-		prevICE, prevDTLS := p.prev()
+		byDTLS, prevDTLS, byICE, prevICE := p.explain(snap)
 		cause := "unexplained"
 		// which input does the resting state not reflect: the state is the aggregate with the previous value of …
-		byDTLS := c22Spec(snap.closed, snap.ice, prevDTLS) == snap.cs && prevDTLS != snap.dtls
-		byICE := c22Spec(snap.closed, prevICE, snap.dtls) == snap.cs && prevICE != snap.ice
-		if byDTLS && byICE { // both explain it: the change that was not taken into account is the more recent one
-			p.mu.Lock()
-			byDTLS, byICE = p.dtlsT > p.iceT, p.dtlsT <= p.iceT
-			p.mu.Unlock()
-		}
 		switch {
 		case snap.closed && snap.cs != PeerConnectionStateClosed:
 			cause = "after-close"
